@@ -29,6 +29,10 @@ def H(name, group, tier="quick", desc="", **kw):
 # ------------------------------------------------------------------------------------------- C09
 
 def _c09():
+    return _c09_impl()
+
+
+def _c09_impl():
     hs = []
     q = lambda n, d, **kw: hs.append(H(n, "c09", "quick", d, **kw))
     t = lambda n, d, **kw: hs.append(H(n, "c09", "thorough", d, **kw))
@@ -61,6 +65,7 @@ def _c09():
         q("c09_%s_power" % w, "%s power, all finite operands: None on negative exponent, result never NaN/inf (powf = its IEEE contract as a nondeterministic function; counterexamples replayed against the real powf)" % wd)
         q("c09_%s_bitwise_is_unit" % w, "%s: every bitwise op and shift -> None" % wd)
     q("c09_f_unary", "abs/opposite/increment/decrement exact, bitwise_not None, every finite f64")
+    hs += num_op_harnesses()
     return {
         "claim": "Every GarnishNumber operation of SimpleNumber returns the exact result when representable and None otherwise; integer kernels at full 32-bit width, float kernels within the mantissa bounds named per harness.",
         "functions": ["data/src/data/number.rs: do_op, <SimpleNumber as GarnishNumber>::{plus, subtract, multiply, divide, integer_divide, power, remainder, absolute_value, opposite, increment, decrement, bitwise_not, bitwise_and, bitwise_or, bitwise_xor, bitwise_shift_left, bitwise_shift_right}",
@@ -72,8 +77,108 @@ def _c09():
     }
 
 
+# ------------------------------------------------------------------------------------------- shared one-step families
+
+TAGS = "unit number type char char_list byte byte_list symbol symbol_list pair range concatenation slice partial list expression external true false custom".split()
+NUM_BIN = "add subtract multiply divide integer_divide power remainder bitwise_and bitwise_or bitwise_xor bitwise_shift_left bitwise_shift_right".split()
+NUM_UN = "opposite absolute_value bitwise_not".split()
+STEP_PLAIN = "put put_value push_value update_value start_side_effect end_side_effect jump_to reapply end_expression make_pair concat partial_apply type_of type_equal make_range make_start_exclusive_range make_end_exclusive_range make_exclusive_range".split()
+TRUTH = "jump_if_true jump_if_false and or not tis xor".split()
+DISP_BIN = "access apply apply_type".split()
+DISP_UN = "empty_apply access_left_internal access_right_internal access_length_internal".split()
+
+STATE_NOTE = "pre-state = any_state: cells with symbolic type tag (all 20), payload and links, constrained only by the validity predicate state::cell_valid (links point downwards, range ends are numbers, slices are (sliceable, range), list extents inside their pools, valid chars)"
+
+
+def num_op_harnesses(tier="quick"):
+    return [H("c08_op_%s" % o, "step", tier, "%s on two operands of symbolic type (20 x 20), integers from {-4..4, MIN, MAX, 31, 32}: defer protocol, None->unit, arity" % o) for o in NUM_BIN] + \
+           [H("c08_op_%s" % o, "step", tier, "%s on one operand of symbolic type, full-width integer: defer protocol, None->unit, arity" % o) for o in NUM_UN]
+
+
+def step_harnesses(names=STEP_PLAIN, tier="quick"):
+    return [H("step_%s" % o, "step", tier, "%s from any_state: exact effect on registers / value stack / frames / cursor" % o) for o in names]
+
+
+def truth_harnesses(tier="quick"):
+    return [H("c10_truth_%s" % o, "step", tier, "%s on a value of symbolic type (all 20): behaves as is_false(t) := t in {Unit, False}; logical results are booleans" % o) for o in TRUTH]
+
+
+def disp_harnesses(ops, tier="quick", tags=TAGS, **kw):
+    out = []
+    for o in ops:
+        for t in tags:
+            out.append(H("disp_%s_%s" % (o, t), "dispatch", tier, "%s with left operand of type %s (symbolic contents, lists of length 0..2) and right operand of symbolic type (all 20) or the left operand itself: result Ok, arity, defer_op iff the combination is not in the golden DEFINED table, protocol of the call" % (o, t), **kw))
+    return out
+
+
+def retier(hs, tier):
+    return [dict(h, tier=tier) for h in hs]
+
+
+def _c08():
+    hs = num_op_harnesses() + step_harnesses("make_pair concat partial_apply type_of type_equal make_range make_start_exclusive_range make_end_exclusive_range make_exclusive_range".split())
+    hs += disp_harnesses(["access", "apply"])
+    hs += disp_harnesses(["apply_type"] + DISP_UN, tier="thorough")
+    return {
+        "claim": "For every instruction that dispatches on operand types, one step from an arbitrary valid state returns Ok, leaves exactly one result, calls defer_op exactly once with (instruction, left, right) in source order iff the type combination is not defined (golden tables in harness/src/bodies/dispatch.rs), pushes unit when the host declines and leaves the host's value untouched on top when it accepts. Contract model of the data trait (BoundedData), scripted host.",
+        "functions": ["runtime/src/runtime/arithmetic.rs perform_op, perform_unary_op", "runtime/src/runtime/bitwise.rs", "runtime/src/runtime/access.rs access", "runtime/src/runtime/apply.rs apply, empty_apply, apply_internal, narrow_range", "runtime/src/runtime/casting.rs type_cast, type_of, list_from_*, primitive_cast", "runtime/src/runtime/internals.rs", "runtime/src/runtime/list.rs get_access_addr, access_with_integer, access_with_symbol, index_*", "runtime/src/runtime/range.rs", "runtime/src/runtime/pair.rs, concat.rs, partial.rs", "runtime/src/runtime/equality.rs type_equal", "traits/src/helpers/concatenation.rs", "runtime/src/execute.rs execute_current_instruction (dispatch of the instruction under test)"],
+        "bounds": "one instruction step; " + STATE_NOTE + "; list-like values of length 0..2; data model capacity 10 cells; numbers are integers (full width for unary ops and dispatching instructions, {-4..4, MIN, MAX, 31, 32} for binary number ops whose oracle recomputes the arithmetic); left operand type concrete per harness for the traversing instructions (20 harnesses per instruction), right operand type symbolic",
+        "outside": "the two shipped stores (this is the contract model; store-level harnesses are listed under C07/C16); nesting deeper than one level below the operands; lists longer than 2; float payloads; comparison and equality instructions (never deferred by design: C11, C12)",
+        "assumptions": ["the data object honours the GarnishData contract as modelled by harness/src/bounded.rs", "host callbacks push exactly one value when they accept (README)", STATE_NOTE],
+        "harnesses": hs,
+    }
+
+
+def _c10():
+    hs = truth_harnesses()
+    return {
+        "claim": "Exactly the unit value and False are false: JumpIfTrue, JumpIfFalse, And, Or, Xor, Not and Tis classify a value of every one of the 20 types the same way; the five logical instructions produce booleans; And/Or fall through with a decided boolean or jump to the right operand's code without leaving anything behind.",
+        "functions": ["runtime/src/runtime/logical.rs and, or, xor, not, tis, is_true_value", "runtime/src/runtime/jumps.rs jump_if_true, jump_if_false", "runtime/src/execute.rs execute_current_instruction"],
+        "bounds": "one instruction step; tested value = a cell of symbolic type (all 20 tags) with symbolic payload and links; exhaustive over the type, so the truth table itself is complete on the contract model",
+        "outside": "the two shipped stores' get_data_type; evaluation order / short-circuit over whole programs is decided by the template harnesses (c10_prog_*)",
+        "assumptions": [STATE_NOTE],
+        "harnesses": hs,
+    }
+
+
+def _c06():
+    hs = step_harnesses() + num_op_harnesses() + truth_harnesses()
+    hs += disp_harnesses(["access", "apply"], tags="pair list expression partial external number symbol concatenation".split())
+    hs += disp_harnesses(["access", "apply"], tier="thorough", tags="unit type char char_list byte byte_list symbol_list range slice true false custom".split())
+    hs += disp_harnesses(["apply_type"] + DISP_UN, tier="thorough")
+    return {
+        "claim": "Arity lemma: one step of every instruction from an arbitrary valid state that returns Ok changes the register, value-stack and frame depths by exactly the instruction's fixed arity, leaves the registers below its operands untouched, and hands back any registers it borrowed as a worklist.",
+        "functions": ["runtime/src/execute.rs execute_current_instruction", "runtime/src/runtime/*.rs (every instruction)", "traits/src/helpers/concatenation.rs iterate_concatenation_mut_with_method"],
+        "bounds": "one instruction step per harness; " + STATE_NOTE + "; capacity 10 cells; lists of length 0..2",
+        "outside": "whole-program balance on all paths is decided by the template harnesses (c06_prog_*); the shipped stores' own register/frame bookkeeping (BasicGarnishData::push_frame/pop_frame) is covered only by the store-level harnesses when present",
+        "assumptions": [STATE_NOTE, "enough operands are on the register stack (a built program guarantees it: C06 all-paths runs)"],
+        "harnesses": hs,
+    }
+
+
+def _c07():
+    c09 = _c09()["harnesses"]
+    hs = [dict(h) for h in c09 if h["tier"] == "quick" and "_kf_" not in h["name"] and ("_ii_" in h["name"] or "_i_unary" in h["name"] or h["name"].endswith("_plus") or h["name"].endswith("_power") or h["name"].endswith("_remainder") or "unary" in h["name"])]
+    hs += retier(num_op_harnesses(), "quick")
+    hs += disp_harnesses(["access", "apply", "apply_type"])
+    hs += disp_harnesses(DISP_UN, tier="thorough")
+    hs += retier(step_harnesses(), "thorough") + retier(truth_harnesses(), "thorough")
+    return {
+        "claim": "No reachable panic, arithmetic overflow, out-of-bounds index, failed unwrap or unreachable!/unimplemented! in one step of any instruction from an arbitrary valid state, nor in any SimpleNumber operation on any operands: only Kani's own checks (and untagged assertions) count for this property.",
+        "functions": ["runtime/src/execute.rs", "runtime/src/runtime/*.rs", "data/src/data/number.rs (all GarnishNumber methods, From<SimpleNumber> for usize)", "data/src/runtime.rs SimpleDataFactory conversions", "traits/src/helpers/concatenation.rs"],
+        "bounds": "one instruction step; " + STATE_NOTE + "; integers full width (index operands negative, huge, MIN, MAX); lists 0..2; capacity 10 cells; number kernels at full width (see C09)",
+        "outside": "panics inside the two shipped stores' own methods (raw heap slicing, list construction) except where a store-level harness is listed; float index operands; nesting deeper than one level",
+        "assumptions": [STATE_NOTE],
+        "harnesses": hs,
+    }
+
+
 PROPERTIES = {
+    "C06": _c06(),
+    "C07": _c07(),
+    "C08": _c08(),
     "C09": _c09(),
+    "C10": _c10(),
 }
 
 GENERATORS = {}
